@@ -37,6 +37,7 @@ type Config struct {
 	MaxConcretize int
 	Params      map[string]int
 	NoIncremental bool
+	SkipFuncs   map[string]bool // functions treated as no-ops (default results)
 	SampleDone  int // number of completed paths whose model is kept for native validation
 }
 
